@@ -41,7 +41,8 @@ type Recorder struct {
 	notify chan struct{}
 	// FailAfter, when >= 0, makes every mutating operation after that many
 	// mutating operations fail (unused by default).
-	closed int
+	closed   int
+	closeErr error
 	// delay makes every mutating operation take this long (a slow disk): it widens the windows in which
 	// the queue holds its lock across a storage call.
 	delay atomic.Int64
@@ -62,14 +63,21 @@ func NewRecorder(initial map[string][]byte) *Recorder {
 func (r *Recorder) Start(context.Context, component.Host) error { return nil }
 func (r *Recorder) Shutdown(context.Context) error              { return nil }
 
-// GetClient returns the recorder itself (one namespace).
-func (r *Recorder) GetClient(context.Context, component.Kind, component.ID, string) (storage.Client, error) {
-	return (*recClient)(r), nil
+// GetClient returns a client whose keys live in a namespace of their own, named
+// after the component kind, the component id and the client name — as the
+// storage.Extension contract says ("each component can have multiple storages",
+// one per name) and as a file-backed storage extension does.  All namespaces
+// share the recorder's single contents map and history (keys are prefixed).
+func (r *Recorder) GetClient(_ context.Context, kind component.Kind, id component.ID, name string) (storage.Client, error) {
+	return &recClient{rec: r, prefix: kind.String() + "_" + id.String() + "_" + name + "/"}, nil
 }
 
-type recClient Recorder
+type recClient struct {
+	rec    *Recorder
+	prefix string
+}
 
-func (c *recClient) r() *Recorder { return (*Recorder)(c) }
+func (c *recClient) r() *Recorder { return c.rec }
 
 func (c *recClient) Get(ctx context.Context, key string) ([]byte, error) {
 	if err := ctx.Err(); err != nil {
@@ -78,7 +86,7 @@ func (c *recClient) Get(ctx context.Context, key string) ([]byte, error) {
 	r := c.r()
 	r.mu.Lock()
 	defer r.mu.Unlock()
-	v, ok := r.data[key]
+	v, ok := r.data[c.prefix+key]
 	if !ok {
 		return nil, nil
 	}
@@ -109,20 +117,21 @@ func (c *recClient) Batch(ctx context.Context, ops ...*storage.Operation) error 
 	r.mu.Lock()
 	var muts []Mut
 	for _, op := range ops {
+		key := c.prefix + op.Key
 		switch op.Type {
 		case storage.Get:
-			if v, ok := r.data[op.Key]; ok {
+			if v, ok := r.data[key]; ok {
 				op.Value = append([]byte(nil), v...)
 			} else {
 				op.Value = nil
 			}
 		case storage.Set:
-			r.data[op.Key] = append([]byte(nil), op.Value...)
-			muts = append(muts, Mut{Key: op.Key, Val: append([]byte{}, op.Value...)})
+			r.data[key] = append([]byte(nil), op.Value...)
+			muts = append(muts, Mut{Key: key, Val: append([]byte{}, op.Value...)})
 		case storage.Delete:
-			if _, ok := r.data[op.Key]; ok {
-				delete(r.data, op.Key)
-				muts = append(muts, Mut{Key: op.Key, Del: true})
+			if _, ok := r.data[key]; ok {
+				delete(r.data, key)
+				muts = append(muts, Mut{Key: key, Del: true})
 			}
 		}
 	}
@@ -138,8 +147,16 @@ func (c *recClient) Close(context.Context) error {
 	r := c.r()
 	r.mu.Lock()
 	r.closed++
+	err := r.closeErr
 	r.mu.Unlock()
-	return nil
+	return err
+}
+
+// SetCloseError makes every later Client.Close return err (a storage fault at shutdown).
+func (r *Recorder) SetCloseError(err error) {
+	r.mu.Lock()
+	r.closeErr = err
+	r.mu.Unlock()
 }
 
 func (r *Recorder) ping() {
